@@ -142,6 +142,7 @@ func runClientScenario(t *testing.T, sc *cliScenario, pickFn func(int) int) *cli
 		writeFileQuiet(out+".progress", b)
 	}
 	defer runtime.GOMAXPROCS(runtime.GOMAXPROCS(1))
+	defer scenarioWatchdog("client scenario")()
 	synctest.Test(t, func(t *testing.T) {
 		jrpc2.VerifHook = r.sched.hook
 		defer func() { jrpc2.VerifHook = nil }()
